@@ -1,13 +1,12 @@
 import GrinVerif.Props.C06Chunk
 import GrinVerif.Lemmas.ChainMorePath
 import GrinVerif.Lemmas.ChainOrder
-/-! The path facts H1 / H2 of `chunk_accepted_iff_each_singly_partial` (Props/C06Chunk.lean), derived
+/-! The path facts H1 / H2 of `chunk_accepted_iff_given_fork_set` (Props/C06Chunk.lean), derived
 from "a linked chunk of fresh headers hanging below a block whose own path is `pre`":
 `path(last) = pre ++ chunk` (`isPath_append_linked`), hence the headers the MMR step re-applies are
 the chunk's own plus the off-chain part of `pre` (`chunk_accepted_iff_no_root_fault`).
-Still open: that the FOLD of the single-header path over the chunk succeeds iff `validateChunk`
-does and no header carries a root fault (an induction over `processHeaderK` with the freshness
-hypotheses) - the last step to "accepted as a chunk iff accepted one by one". -/
+The fold of the single-header path over the chunk - the last step to "accepted as a chunk iff
+accepted one by one" - is Props/C06ChunkSingles.lean. -/
 namespace GV.Props.C06Chunk
 open GV GV.Chain
 
@@ -55,7 +54,7 @@ theorem chunk_accepted_iff_no_root_fault (p : Params) (n n1 : Node) (bs pre : Li
     unfold forkBlocks
     rw [hpath]
     simp only [headerAtHeight_congr a4 a2]
-  apply chunk_accepted_iff_each_singly_partial p n n1 bs last hlast hv
+  apply chunk_accepted_iff_given_fork_set p n n1 bs last hlast hv
   · intro b hb
     rw [hfb]
     exact List.mem_filter.mpr ⟨List.mem_append_right _ hb, by simp [hfresh b hb]⟩
